@@ -75,7 +75,7 @@ def ext_for_model(prog):
 
 
 def model_check(ctx, names, *, invariants=ALL_INV, properties=ALL_PROPS, max_crashes=None, max_api_fails=1, max_inv=None,
-                liveness=False, tag="dur", timeout_s=1500, immediate_ext=True):
+                liveness=False, tag="dur", timeout_s=1500, immediate_ext=True, with_paging=False):
     """TLC on Durable.tla for each named curated program. Returns {name: TlcResult}."""
     out = {}
     for name in names:
@@ -87,7 +87,7 @@ def model_check(ctx, names, *, invariants=ALL_INV, properties=ALL_PROPS, max_cra
         wd = work_dir(f"{tag}-{ctx.pid}-{label}")
         props = list(properties) + (["C07_EventuallyTerminal"] if liveness else [])
         mod, cfg = write_mc(wd, label, ins, spec="FairSpec" if liveness else "Spec", max_crashes=mc, max_api_fails=max_api_fails,
-                            max_inv=mi, immediate_ext=immediate_ext, amo_ready_start=VARIANT.get("AmoReadyStart", False),
+                            max_inv=mi, immediate_ext=immediate_ext, amo_ready_start=VARIANT.get("AmoReadyStart", False), with_paging=with_paging,
                             invariants=invariants, properties=props)
         res = run_tlc(mod, cfg, f"{tag}-{ctx.pid}-{label}", timeout_s=timeout_s)
         require_ok(res, f"model checking Durable.tla on {label}")
